@@ -168,6 +168,10 @@ def parseSpec (spec : String) : Except Exc (String × String) :=
     | some args => .ok (String.ofList name, String.ofList args)
     | none => .error ⟨.valueError, "Unclosed parenthesis in passage spec: " ++ spec⟩
 
+/-- a failing parameter default is reported as `ValueError` -/
+def defaultFailed (name : String) (e : PyErr) : Exc :=
+  ⟨.valueError, "Could not evaluate default for parameter '" ++ name ++ "': " ++ e.msg⟩
+
 /-- `_bind_arguments` -/
 def bindArgs (c : ECfg S) (l : Live S.V) : List Param → Env S.V → Nat → Env S.V → Except Exc (Env S.V)
   | [], _, _, res => .ok res
@@ -185,7 +189,7 @@ def bindArgs (c : ECfg S) (l : Live S.V) : List Param → Env S.V → Nat → En
         | some d =>
           match S.eval (Env.update (evalCtx S c.cx l.vars l.scopes.head?) res) d with
           | .ok v => bindArgs c l ps ad k (Env.set res p.name v)
-          | .error e => .error e.toExc
+          | .error e => .error (defaultFailed p.name e)
         | none => .error ⟨.valueError, "Required parameter '" ++ p.name ++ "' not provided"⟩
 
 def mkFinal (accC : List String) (accD : List (Dir S.V)) (o : Output S.V) : Output S.V :=
